@@ -11,7 +11,8 @@ open S3V S3V.SigV4
 
 /-- the verdict logic, exactly (no well-formedness hypothesis): `v4_check_presigned_url` accepts, and attributes the
     request to the access key / region / service of `X-Amz-Credential`, iff the six parameters parse, the algorithm
-    is AWS4-HMAC-SHA256, the credential scope names the day of `X-Amz-Date`, `x-amz-content-sha256` (if present) is admissible, the date is a calendar instant, the key
+    is AWS4-HMAC-SHA256, the credential scope names the day of `X-Amz-Date`, every listed header is in the request,
+    `x-amz-content-sha256` (if present) is admissible, the date is a calendar instant, the key
     is known, `now` lies in `[date − 900 s, date + expires]`, and the recomputed signature is the presented one -/
 theorem C06_accept_conditions (sha256hex : Bytes → Bytes) (hmac : Bytes → Bytes → Bytes)
     (look : Bytes → Option Bytes) (nowNs : Int) (c : Ctx) (ak region service : Bytes) :
@@ -30,10 +31,9 @@ theorem C06_window_exact (nowNs date : Int) (expires : Nat) :
   window_iff nowNs date expires
 
 /-- FULL statement: accepted iff the signature is the specified one over method, path, all other query parameters
-    and the signed headers, under the credential's scope, and `now` is inside the window. False (`Findings.C05`)
-    through the open classes `sigv4-dup-query-unsorted` and `sigv4-absent-signed-header` (the presigned path does not
-    refuse a name listed in `X-Amz-SignedHeaders` that no header line carries), and for lists outside the
-    specification's domain (unsorted or repeating a name). -/
+    and the signed headers, under the credential's scope, and `now` is inside the window. False (`Findings.C05`) only
+    through the open class `sigv4-dup-query-unsorted` (the one remaining deviation), and for `X-Amz-SignedHeaders`
+    lists outside the specification's domain (unsorted, repeating a name, or listing `authorization`). -/
 def C06_presigned_iff_full : Prop :=
   ∀ (sha256hex : Bytes → Bytes) (hmac : Bytes → Bytes → Bytes) (look : Bytes → Option Bytes) (nowNs : Int) (c : Ctx)
     (raw : List (Bytes × Bytes)) (ak region service : Bytes), orderedHeaders raw = some c.hs →
@@ -46,12 +46,12 @@ def C06_presigned_iff_full : Prop :=
           (SigV4Spec.presignedRequest c.method c.path c.qs (effectiveRaw c.http2 c.authority raw) p.signedHeaders))
 
 /-- for every context satisfying `wfPresignedCtx` (the names of `X-Amz-SignedHeaders` sorted, distinct, not
-    `authorization`, each carried by a header line; duplicate parameter names with ascending values), all times `now`,
-    arbitrary hash and MAC. `PresignedChecks` contains the code's own check that the credential scope names the day of
-    `X-Amz-Date` (4011296). -/
+    `authorization`; duplicate parameter names with ascending values), all times `now`, arbitrary hash and MAC.
+    `PresignedChecks` contains the code's own checks that the credential scope names the day of `X-Amz-Date` (4011296)
+    and that every listed header is in the request (d4ba65c). -/
 theorem C06_presigned_iff_partial (sha256hex : Bytes → Bytes) (hmac : Bytes → Bytes → Bytes)
     (look : Bytes → Option Bytes) (nowNs : Int) (c : Ctx) (raw : List (Bytes × Bytes)) (ak region service : Bytes)
-    (hraw : orderedHeaders raw = some c.hs) (hwf : wfPresignedCtx c raw = true) :
+    (hraw : orderedHeaders raw = some c.hs) (hwf : wfPresignedCtx c = true) :
     v4CheckPresignedUrl sha256hex hmac (some look) nowNs c = .accept ak region service ↔
       ∃ p secret date, PresignedChecks look c p secret date ∧
         p.credential.accessKey = ak ∧ p.credential.region = region ∧ p.credential.service = service ∧
